@@ -145,3 +145,92 @@ def f8(run, v, entry, exc):
     if v["kind"] not in CONTENT_KINDS or entry is None:
         return False
     return _sort_over_chain_missing_cols(entry.rel)
+
+
+def _has_iteration_join(rel):
+    from lsst.daf.relation import BinaryOperationRelation, Join, iteration
+
+    return any(isinstance(n, BinaryOperationRelation) and isinstance(n.operation, Join)
+               and isinstance(n.engine, iteration.Engine) for n in _walk(rel))
+
+
+@recogniser("F19")
+def f19(run, v, entry, exc):
+    """join accepted in the iteration engine, rejected at execute() (documented limitation)."""
+    if entry is None or v.get("exc_type") != "EngineError":
+        return False
+    return "Joins are not supported by the iteration engine" in v.get("exc_msg", "") and _has_iteration_join(entry.rel)
+
+
+def _nested_compound(rel):
+    from lsst.daf.relation import BinaryOperationRelation, Chain
+    from lsst.daf.relation.sql import Select
+
+    for n in _walk(rel):
+        if isinstance(n, BinaryOperationRelation) and isinstance(n.operation, Chain):
+            for o in (n.lhs, n.rhs):
+                if isinstance(o, Select) and o.is_compound:
+                    return True
+    return False
+
+
+@recogniser("F16")
+def f16(run, v, entry, exc):
+    """chain whose operand is itself a chain: parenthesised compound SELECT, rejected by SQLite."""
+    if entry is None or v.get("exc_type") != "OperationalError":
+        return False
+    return 'near "(": syntax error' in v.get("exc_msg", "") and _nested_compound(entry.rel)
+
+
+def _leaf_names(rel):
+    from lsst.daf.relation import LeafRelation
+
+    return {n.name for n in _walk(rel) if isinstance(n, LeafRelation)}
+
+
+def _self_join(rel):
+    from lsst.daf.relation import BinaryOperationRelation, Join, MarkerRelation
+
+    def tables(r):
+        # table names visible without an intervening subquery or cached payload
+        out = set()
+        for n in _walk(r):
+            p = getattr(n, "payload", None)
+            fc = getattr(p, "from_clause", None)
+            if fc is not None and getattr(fc, "name", None):
+                out.add(fc.name)
+        return out
+
+    for n in _walk(rel):
+        if isinstance(n, BinaryOperationRelation) and isinstance(n.operation, Join):
+            if tables(n.lhs) & tables(n.rhs):
+                return True
+    return False
+
+
+@recogniser("F15")
+def f15(run, v, entry, exc):
+    """join whose operands read the same table: un-aliased FROM t JOIN t, 'ambiguous column name'."""
+    if entry is None or v.get("exc_type") != "OperationalError":
+        return False
+    return "ambiguous column name" in v.get("exc_msg", "") and _self_join(entry.rel)
+
+
+def _compound_sort_by_expression(rel):
+    from lsst.daf.relation import ColumnReference
+    from lsst.daf.relation.sql import Select
+
+    for n in _walk(rel):
+        if isinstance(n, Select) and n.is_compound and n.has_sort:
+            if any(not isinstance(t.expression, ColumnReference) for t in n.sort.terms):
+                return True
+    return False
+
+
+@recogniser("F25")
+def f25(run, v, entry, exc):
+    """UNION ... ORDER BY <expression>: sort terms of a compound SELECT that are not plain result columns."""
+    if entry is None or v.get("exc_type") != "OperationalError":
+        return False
+    return "ORDER BY term does not match any column in the result set" in v.get("exc_msg", "") and \
+        _compound_sort_by_expression(entry.rel)
